@@ -71,20 +71,22 @@ def secrets(secret_id):
 
 @contextlib.contextmanager
 def simulated_disk(disk):
-    """Patch os.statvfs so that fileutil.get_disk_stats sees `disk['free']` bytes free for a
-    non-privileged user (block size 1).  The real avail = max(free - reserved, 0) formula runs."""
+    """Patch os.statvfs so that fileutil.get_disk_stats sees a disk with `disk['free']` fragments of
+    `disk['frsize']` bytes available to a non-privileged user and a preferred I/O size `disk['bsize']`
+    (defaults 1/1: `free` is then in bytes).  The real get_disk_stats / get_available_space code runs on it;
+    the bytes really free are f_bavail * f_frsize."""
     real = os.statvfs
 
     class _St:
-        def __init__(self, free):
-            self.f_frsize = 1
-            self.f_bsize = 1
+        def __init__(self, d):
+            self.f_frsize = d.get("frsize", 1)
+            self.f_bsize = d.get("bsize", 1)
             self.f_blocks = 10 ** 15
-            self.f_bfree = free
-            self.f_bavail = free
+            self.f_bfree = d["free"]
+            self.f_bavail = d["free"]
 
     def fake(path):
-        return _St(disk["free"])
+        return _St(disk)
     os.statvfs = fake
     try:
         yield
@@ -204,13 +206,14 @@ class Runner:
     """Runs one history on a real StorageServer; produces the canonical outputs and evaluates the
     property statements (monitor) after every operation."""
 
-    def __init__(self, ctx, pid, readonly=False, reserved=0, monitor=True):
+    def __init__(self, ctx, pid, readonly=False, reserved=0, monitor=True, geo=(1, 1)):
         from twisted.internet.task import Clock
         self.ctx = ctx
         self.pid = pid
         self.clock = Clock()
         self.dir = tmpdir(pid.lower())
-        self.disk = {"free": 10 ** 12}
+        self.geo = tuple(geo)     # (f_frsize, f_bsize) of the simulated disk
+        self.disk = {"free": 10 ** 12, "frsize": self.geo[0], "bsize": self.geo[1]}
         self.readonly = readonly
         self.reserved_space = reserved
         self.ss = make_server(self.dir, self.clock, reserved, readonly)
@@ -270,7 +273,8 @@ class Runner:
             order = listdir_order(ss, si)
             rec = lease_record(self.clock, secret_id)
             rs, cs = secrets(secret_id)
-            line = "A:%d:%s:%d:%s:%d:%s" % (si, show_list(str(x) for x in shset), size, hx(rec), free,
+            free_tok = "%d" % free if self.geo == (1, 1) else "%dx%dx%d" % (free, self.geo[0], self.geo[1])
+            line = "A:%d:%s:%d:%s:%s:%s" % (si, show_list(str(x) for x in shset), size, hx(rec), free_tok,
                                             show_list(str(x) for x in order))
             if conn is not None:
                 line += ":%d" % conn
@@ -304,7 +308,8 @@ class Runner:
                     self.flag("allocate_buckets handed out a writer for a completed share", "c22-writer-for-complete-share")
             self.ctx.count("alloc:accepted", len(writers))
             self.ctx.count("alloc:refused", len(shset) - len(writers) - len(shset & set(already)))
-            self.alloc_info = {"size": size, "accepted": len(writers), "before": before_alloc, "free": free,
+            self.alloc_info = {"size": size, "accepted": len(writers), "before": before_alloc,
+                               "free": free * self.geo[0],      # bytes really free: f_bavail * f_frsize
                                "requested": len(shset)}
             return line, "a=%s|w=%s" % (show_list(str(x) for x in sorted(already)), show_list(ws))
         if kind in ("W", "H", "C", "X", "Y") and o[1] >= len(self.handles):
@@ -635,9 +640,9 @@ class Resolver:
         return [o[0][0], wid]
 
 
-def run_history(ctx, pid, abstract_ops, readonly=False, reserved=0, concrete=False, sis=(0, 1, 2), dirs=False):
+def run_history(ctx, pid, abstract_ops, readonly=False, reserved=0, concrete=False, sis=(0, 1, 2), dirs=False, geo=(1, 1)):
     """Execute (resolving abstract ops unless `concrete`); returns (concrete_ops, line, out, violations)."""
-    runner = Runner(ctx, pid, readonly=readonly, reserved=reserved)
+    runner = Runner(ctx, pid, readonly=readonly, reserved=reserved, geo=geo)
     res = Resolver(ctx.rng)
     conc = []
     lines, outs = [], []
@@ -678,4 +683,5 @@ def c28_after_alloc(runner):
     total = runner.ss.allocated_size()
     if total > max(0, info["free"] - runner.reserved_space):
         runner.flag("after accepting %d x %d: in progress %d + reserved_space %d > free %d" % (
-            info["accepted"], info["size"], total, runner.reserved_space, info["free"]), "c28-overcommit")
+            info["accepted"], info["size"], total, runner.reserved_space, info["free"]),
+            "c28-overcommit" if runner.geo[0] == runner.geo[1] else "c28-overcommit:statvfs-bsize-ne-frsize")
